@@ -23,13 +23,15 @@ type GenOpts struct {
 	Err              bool // (T, error) forms
 	Iface            bool // outputs declared as interface types
 	MaxDeps          int
+	NilOuts          bool // multi-return constructors may always return nil for a secondary interface output
+	VoidAnyLife      bool // initializer-shaped functions registered with any lifetime (C08)
 	DisposableBias   bool // prefer D types
 	ChainBias        bool // prefer depending on recently generated services (deeper chains)
 }
 
 func FullOpts() GenOpts {
 	return GenOpts{MinRegs: 1, MaxRegs: 9, Multi: true, Out: true, OutGroupFields: true, Instance: true, Void: true, As: true, MultiAs: true,
-		Groups: true, Keys: true, MultiGroup: true, OptionalMissing: true, Builtins: true, Err: true, Iface: true, MaxDeps: 3}
+		Groups: true, Keys: true, MultiGroup: true, OptionalMissing: true, Builtins: true, Err: true, Iface: true, MaxDeps: 3, NilOuts: true}
 }
 
 // NeverType is a concrete type id that generated configurations never provide.
@@ -216,7 +218,7 @@ func GenConfig(t *rapid.T, o GenOpts) *Config {
 		if o.Instance {
 			forms = append(forms, FormInstance)
 		}
-		if o.Void && r.Life == Scoped {
+		if o.Void && (r.Life == Scoped || o.VoidAnyLife) {
 			forms = append(forms, FormVoid)
 		}
 		r.Form = rapid.SampledFrom(forms).Draw(t, "form")
@@ -295,9 +297,20 @@ func GenConfig(t *rapid.T, o GenOpts) *Config {
 				}
 				ok = ok && found
 			}
+			if ok && o.NilOuts && group == "" && len(r.Outs) < 3 && rapid.IntRange(0, 2).Draw(t, "nilout") == 0 {
+				// a secondary interface-typed output the constructor always leaves nil
+				it := NumConcrete + rapid.IntRange(0, NumIface-1).Draw(t, "nilT")
+				if id := (Ident{T: it}); !g.used[id] {
+					g.used[id] = true // registered, but nothing can depend on it
+					r.Outs = append(r.Outs, OutSpec{T: it, Impl: r.Outs[0].Impl, Nil: true})
+				}
+			}
 			if ok {
 				r.Group = group
 				for _, os := range r.Outs {
+					if os.Nil {
+						continue
+					}
 					g.take(Ident{T: os.T, Group: group}, r.Life, i)
 				}
 			}
